@@ -227,6 +227,7 @@ func runC05(c *run.Ctx, s *kit.Summary) {
 		realTransportRuns(c, s, r)
 		cliRuns(c, s, r)
 		cliRepeatedRun(c, s, r)
+		flakyRuns(c, s, r)
 	}
 	if !raceChild && c.Replay == "" {
 		raceRun(c, s)
